@@ -792,6 +792,38 @@ WHOLE_TEXT = common.LOOK + ("<impl str>::to_uppercase", "<impl str>::to_lowercas
                             "convert::Into::into", "convert::From::from", "String::as_mut_str", "Option::<T>::as_deref")
 
 
+def _const_text(b, o, depth=0):
+    """The string constant an operand denotes, through copies, borrows and promoted constants (or None)."""
+    if o is None or depth > 6:
+        return None
+    if o.get("k") == "const":
+        if isinstance(o.get("promoted"), int):
+            try:
+                pb = b.raw["promoted"][o["promoted"]]
+            except (IndexError, KeyError, TypeError):
+                return None
+            for blk in pb.get("blocks", []):
+                for st in blk["stmts"]:
+                    rv = st.get("rv") or {}
+                    op = rv.get("op") or {}
+                    if op.get("k") == "const" and '"' in (op.get("s") or ""):
+                        return op["s"]
+            return None
+        return o.get("s") if '"' in (o.get("s") or "") else None
+    pl = o.get("place")
+    if not pl:
+        return None
+    defs = [(rv) for bb, idx, place, rv, _ in b.assignments() if place["l"] == pl["l"] and not place["p"]]
+    if len(defs) != 1:
+        return None
+    rv = defs[0]
+    if rv["k"] == "use":
+        return _const_text(b, rv["op"], depth + 1)
+    if rv["k"] == "ref":
+        return _const_text(b, {"k": "copy", "place": rv["place"]}, depth + 1)
+    return None
+
+
 def direction_whole(rep, lib):
     r = rep.rule("C18-DIRECTION-WHOLE", "the text that --sort-by compares with ASC / DESC is everything that follows "
                  "the key expression (trimmed, case-folded), never a part of it: anything else after the expression "
@@ -805,10 +837,15 @@ def direction_whole(rep, lib):
         return
     pr = Prov(b, WHOLE_TEXT)
     eqs = []
+    consts = {}
     for c in b.calls:
+        if len(c.args) != 2:
+            continue
         for ai, a in enumerate(c.args):
-            if a.get("k") == "const" and (a.get("s") or "").strip('"').upper() in ("ASC", "DESC") and '"' in (a.get("s") or ""):
-                eqs.append((c, 1 - ai if len(c.args) == 2 else 0))
+            t = _const_text(b, a)
+            if t is not None and t.strip('"').upper() in ("ASC", "DESC"):
+                eqs.append((c, 1 - ai))
+                consts[(c.bb, 1 - ai)] = t
     if not eqs:
         r.bad("from_str#compare", "no comparison with the constants ASC / DESC found (unrecognised idiom)", b.where())
         return
@@ -817,13 +854,13 @@ def direction_whole(rep, lib):
     for c, oi in eqs:
         if c.target is not None and not (set(b.reachable(c.target)) & ok_blocks):
             # a comparison made after the option has already been rejected (it only words the error message)
-            r.ok("from_str#%s@bb%d" % (c.args[1 - oi].get("s") if len(c.args) == 2 else "cmp", c.bb),
+            r.ok("from_str#%s@bb%d" % (consts.get((c.bb, oi), "cmp"), c.bb),
                  "no accepting return is reachable from this comparison", c.where(), nontrivial=False)
             continue
         at = pr.call_arg_origins(c, oi)
         calls = sorted({b.call_at[a[1]].name or "?" for a in at if a[0] == "call"})
         other = sorted({str(a) for a in at if a[0] in ("arg",)})
-        key = "from_str#%s" % (c.args[1 - oi].get("s") if len(c.args) == 2 else "cmp")
+        key = "from_str#%s" % consts.get((c.bb, oi), "cmp")
         if len(calls) == 1 and calls[0].endswith("read_to_eof") and not other:
             r.ok(key, "compares the whole (trimmed, upper-cased) remainder", c.where())
         else:
@@ -916,13 +953,15 @@ def duplicate_set(rep, lib):
     dups = [(bb, idx) for bb, idx, place, rv, _ in b.assignments()
             if rv["k"] == "agg" and rv.get("variant_name") == "DuplicateKeys"]
     okd = 0
-    for c in memb:
+    deciding = [c for c in memb if (c.name or "").rsplit("::", 1)[-1] in ("insert", "contains_key", "contains",
+                                                                          "insert_full", "entry")]
+    for c in deciding:
         if c.target is None:
             continue
         reach = b.reachable(c.target, avoid=set(latches) | {h})
         if any(bb in reach for bb, _ in dups):
             okd += 1
-    if dups and okd == len([c for c in memb if (c.name or "").rsplit("::", 1)[-1] in ("insert", "contains_key", "contains", "insert_full")]) and okd:
+    if dups and okd == len(deciding) and okd:
         r.ok("create_process#duplicate-error", "a key found present leads to DuplicateKeys (%d site(s))" % okd, b.where(dups[0][0]))
     else:
         r.bad("create_process#duplicate-error", "%d membership test(s), %d of them can lead to the DuplicateKeys error "
